@@ -509,8 +509,10 @@ func (p *partition) newSubscribeLoop(ctx context.Context, groupID string, sub *s
 				} else if err == commitlog.ErrCommitLogReadonly {
 					// Partition was set to readonly while subscribed.
 					s = status.New(codes.ResourceExhausted, "End of readonly partition")
-				} else if err == io.EOF {
-					// A reverse reader has gone past the oldest message.
+				} else if err == io.EOF && ctx.Err() == nil {
+					// A reverse reader has gone past the oldest message. Readers
+					// also return EOF when the context was canceled, which is
+					// not the end of the partition.
 					s = status.New(codes.ResourceExhausted, "Beginning of partition reached")
 				} else {
 					s = status.Convert(err)
